@@ -44,6 +44,10 @@ def kind_info(kind, p):
     if kind == "optref":
         v = 400 + p
         return dict(ty="Option<&u32>", setup=f"let o{p}: u32 = {v};", arg=f"Some(&o{p})", check=lambda e: f"{e}.copied() == Some({v}u32)", dbg=f"Some({v})", write="", post="")
+    if kind == "loud":
+        # a type whose Debug leaves a trace (defined in the prelude of the generator that uses it)
+        v = 60 + p
+        return dict(ty="Loud", setup="", arg=f"Loud({v})", check=lambda e: f"{e}.0 == {v}", dbg=f"Loud({v})", write="", post="")
     if kind == "gen":
         v = 500 + p
         return dict(ty=None, setup="", arg=f"{v}u16", check=lambda e: f"{e} == {v}u16", dbg=str(v), write="", post="")
